@@ -4,6 +4,7 @@ import Driver.Agg
 import Driver.Rsm
 import Driver.Apl
 import Driver.Csv
+import Driver.Sqlw
 /-
   gfdriver: reads protocol lines (one case per line) from the file given as first argument (or stdin),
   writes one verdict line per case: `<case-id> <engine> key=value …`.
@@ -21,6 +22,7 @@ def checkLine (line : String) : String :=
       | "RSM" => checkRsm
       | "APL" => checkApl
       | "CSV" => checkCsv
+      | "SQLW" => checkSqlw
       | e => throw s!"unknown engine {e}"
     pure s!"{id} {eng} {res}"
   match runP p line with
